@@ -324,6 +324,17 @@ class Workbook:
         if out.end != 'return':
             raise Unmodelled(f'set_cell_value({addr!r}) ends in {out.end} {out.value!r}')
 
+    def set_cell(self, addr, value, key='e', through_model=False):
+        """set_cell_value with an XLCell object as the address (the API's other spelling of an address)"""
+        recv = 'e.model' if through_model else 'e'
+        out = self._run(self.ctx.mod('evaluator'), {'e': self.evaluator(key), 'a': addr, 'v': value}, f'return {recv}.set_cell_value(xltypes.XLCell(a, None), v)')
+        if out.end != 'return':
+            raise Unmodelled(f'set_cell_value(XLCell({addr!r})) ends in {out.end} {out.value!r}')
+
+    def get_cell(self, addr, key='e'):
+        out = self._run(self.ctx.mod('evaluator'), {'e': self.evaluator(key), 'a': addr}, 'return e.get_cell_value(xltypes.XLCell(a, None))')
+        return V.norm(out.value) if out.end == 'return' else (out.end, repr(out.value))
+
     def extracted(self, focus):
         """A workbook over ModelCompiler.extract(model, focus) (interpreted as written), in the same world."""
         out = self._run(self.ctx.mod('model'), {'m': self.model, 'f': list(focus)}, 'return ModelCompiler.extract(m, f)')
